@@ -445,7 +445,38 @@ func returnKind(r *ssa.Return) RetKind {
 	if idx >= len(r.Results) {
 		return RetMaybe
 	}
-	return errKindAt(r.Results[idx], r.Block(), 0)
+	return errKindAt(unspill(r.Results[idx], r), r.Block(), 0)
+}
+
+// unspill: in functions with defer, go/ssa spills results ("*t0 = v; rundefers; t = *t0; return t").
+// Returns the value stored into the result cell in the return's block, if the operand is such a load.
+func unspill(v ssa.Value, r *ssa.Return) ssa.Value {
+	u, ok := v.(*ssa.UnOp)
+	if !ok || u.Op != token.MUL {
+		return v
+	}
+	al, ok := u.X.(*ssa.Alloc)
+	if !ok {
+		return v
+	}
+	var last ssa.Value
+	for _, ins := range r.Block().Instrs {
+		if st, ok := ins.(*ssa.Store); ok && st.Addr == al {
+			last = st.Val
+		}
+	}
+	if last != nil {
+		return last
+	}
+	return v
+}
+
+// ReturnResult returns result i of a return, looking through defer spilling.
+func ReturnResult(r *ssa.Return, i int) ssa.Value {
+	if i >= len(r.Results) {
+		return nil
+	}
+	return unspill(r.Results[i], r)
 }
 
 // errKindAt classifies error value v as seen from block at.
